@@ -175,11 +175,30 @@ def confirm(v, mode):
     outs = H.replay_lines(['fmt_prec\t%s\t%s\t%d\t%s' % (kind, H.dec_str(x, t['scale']), t['N'], fl) for fl in ('plain', 'flags')])
     out, out_flags = outs
     from fractions import Fraction
-    exact = Fraction(x) * Fraction(10) ** (-t['scale'])
     import re
     if out.startswith('PANIC'):
         return True, out
+    if v.get('kind') == 'panic':
+        dbg = H.replay_lines(['fmt_prec\t%s\t%s\t%d\tplain' % (kind, H.dec_str(x, t['scale']), t['N'])], 'debug')[0]
+        if dbg.startswith('PANIC'):
+            return True, 'debug profile: %s ; release profile: %s' % (dbg[:100], out[:60])
     body = out.lstrip('-')
+    if abs(t['scale']) > 100000:
+        # ends of the i64 scale range: never materialise 10^scale; compare mantissa digits and exponent as integers
+        if kind == 'fixed':
+            return False, out + ' (no native oracle for {:.N} at extreme scales)'
+        mo = re.fullmatch(r'(\d)(?:\.(\d+))?[eE]([+-]?\d+)', body)
+        P = t['N'] + 1
+        L = len(str(abs(x)))
+        if L > P:
+            q, vp = abs(spec.py_round_div_pow10(x, L - P, mode)), L - P - t['scale']
+        else:
+            q, vp = abs(x) * 10 ** (P - L), -(P - L) - t['scale']
+        if len(str(q)) > P:                       # the rounding carried into a new digit
+            q, vp = q // 10, vp + 1
+        ok = bool(mo) and len(mo.group(2) or '') == t['N'] and int(mo.group(1) + (mo.group(2) or '')) == q and int(mo.group(3)) - t['N'] == vp
+        return (not ok), out
+    exact = Fraction(x) * Fraction(10) ** (-t['scale'])
     if kind == 'fixed':
         k = t['scale'] - t['N']
         ei = spec.py_round_div_pow10(x, k, mode) if k >= 1 else x * 10 ** (-k)
@@ -258,6 +277,11 @@ def main(tier):
                 tasks.append({'kind': 'fixed', 'L': L, 'scale': scale, 'N': N, 'mode': mode, 'cfg': cfg})
                 if N <= L and scale in (0, 5, L):
                     tasks.append({'kind': 'exp', 'L': L, 'scale': scale, 'N': N, 'mode': mode, 'upper': bool(N % 2)})
+    # {:.Ne} at the ends of the i64 scale range (the exponent does not fit i64 there)
+    for L in (1, 2, 6):
+        for scale in (-2 ** 63, -2 ** 63 + 1, -2 ** 63 + 2, -2 ** 63 + L, -2 ** 63 + L + 1, 2 ** 63 - 1, 2 ** 63 - 2):
+            for N in (0, 1, 3):
+                tasks.append({'kind': 'exp', 'L': L, 'scale': scale, 'N': N, 'mode': mode, 'upper': bool((L + N) % 2)})
     lim = cfg['FMT_MAX_INTEGER_PADDING']
     for scale in (-(lim - 3), -(lim - 1), -lim, -(lim + 1), -(lim + 40)):
         for N in (0, 1, 2, 5):
